@@ -23,6 +23,8 @@ import common
 import corpus
 import drive_calls as DC
 import drive_ir as IR
+import drive_irgen as IG
+import irgen
 
 SPEC = common.SPEC
 OPS = {"id": ["id"], "elementwise": ["add", "less"], "reduce": ["sum", "logsumexp"], "dot": ["dot"], "preserve": ["softmax", "flip", "sort"],
@@ -134,6 +136,29 @@ def real_chunk(items):
                         if r is not None:
                             r["meta"] = {"call": "einx.%s(%r, backend=%s)" % (op, DC.desc_of(case), backend), "code": rec["code"]}
                             recs.append(r)
+            elif "irgraph" in it:
+                gj = it["irgraph"]
+                where = "IR.tla graph: " + IG.describe(gj)
+                f, rec, code, ins = IG.run_graph(gj, seed=it["seed"])
+                n += 1
+                for x in f:
+                    x["where"] = where
+                    x["code"] = code
+                    x["graph"] = {"nodes": gj["nodes"], "outs": gj["outs"], "nin": gj["nin"], "expect": gj["expect"], "needsdeps": gj["needsdeps"]}
+                findings.extend(f)
+                # Codegen.tla is a machine over SSA terms: adequate for graphs whose buffers are never updated in place; graphs
+                # with in-place nodes are judged by IR.tla's store semantics above (values, input buffers, effect counts)
+                if rec is not None:
+                    f, r = check_record(rec, ins, where)
+                    if any(nd["k"] in ("inpl", "upd", "set") for nd in gj["nodes"]):
+                        r = None
+                    for x in f:
+                        x["where"] = where
+                        x["code"] = rec["code"]
+                    findings.extend(f)
+                    if r is not None:
+                        r["meta"] = {"call": where, "code": rec["code"]}
+                        recs.append(r)
             else:
                 for rec, args, where in special_calls(it["special"]):
                     n += 1
@@ -282,6 +307,18 @@ def run(tier):
         cases = [c for i, c in enumerate(cases) if i % keep.get(c["fam"], 1) == 0]
     items = [{"case": c, "op": OPS[c["fam"]][i % len(OPS[c["fam"]])], "seed": i} for i, c in enumerate(cases)]
     items += [{"special": "adapters"}, {"special": "synthetic"}]
+    # graphs over the IR node types: runs of the tracer API enumerated / sampled by TLC from IR.tla, with their meaning
+    graphs = irgen.generate(rep, tier)
+    irgen.vacuity(rep)
+    wf = [g for g in graphs if g["wf"]]
+    rep.extra["ir_graphs"] = {"exported": len(graphs), "well_formed": len(wf), "ill_formed_skipped": len(graphs) - len(wf),
+                              "need_declared_dependencies": sum(1 for g in wf if g["needsdeps"]),
+                              "with_in_place_node": sum(1 for g in wf if any(n["k"] in ("inpl", "upd", "set") for n in g["nodes"])),
+                              "with_nested_function": sum(1 for g in wf if any(n["k"] == "lam" for n in g["nodes"]))}
+    if tier == "quick" and len(wf) > 9000:
+        step = len(wf) / 9000.0
+        wf = [wf[int(i * step)] for i in range(9000)]
+    items += [{"irgraph": g, "seed": common.seed() * 7919 + i} for i, g in enumerate(wf)]
     results = common.parallel_map("real_chunk", sys.modules[__name__], items)
     recs = []
     for it, r in zip(items, results):
@@ -291,6 +328,11 @@ def run(tier):
         for f in r["findings"]:
             if f["kind"] == "machinery":
                 raise common.MachineryError(f["detail"])
+            if "graph" in f:
+                kinds = sorted({n["k"] for n in f["graph"]["nodes"]})
+                rep.violation({"kind": f["kind"], "where": "IR.tla graph", "needsdeps": f["graph"]["needsdeps"], "node_kinds": kinds},
+                              {"where": f["where"], "code": f["code"], "irgraph": f["graph"]}, "%s: %s\n%s" % (f["where"], f["detail"], f["code"][:700]))
+                continue
             rep.violation({"kind": f["kind"], "where": f["where"][:60]}, {"where": f["where"], "code": f["code"]}, "%s: %s\n%s" % (f["where"], f["detail"], f["code"][:700]))
     ok, bad = validate(rep, recs)
     rep.validated += ok
@@ -303,6 +345,9 @@ def run(tier):
                       "%s: the emitted program does not denote the traced graph (%s)\n%s" % (r["meta"]["call"], {"VALUE": "returned term differs", "ASSERTS": "assertions differ", "EFFECTS": "an effect is duplicated or missing"}[tag], r["meta"]["code"][:800]))
     if recs:
         rep.sample({"call": recs[0]["meta"]["call"], "code": recs[0]["meta"]["code"], "graph_term": recs[0]["graph"]["out"]})
+        ig = [r for r in recs if r["meta"]["call"].startswith("IR.tla") and "h!" in r["meta"]["call"]]
+        if ig:
+            rep.sample({"call": ig[len(ig) // 2]["meta"]["call"], "code": ig[len(ig) // 2]["meta"]["code"]})
         sp = [r for r in recs if "synthetic" in r["meta"]["call"] or "adapt" in r["meta"]["call"]]
         if sp:
             rep.sample({"call": sp[0]["meta"]["call"], "code": sp[0]["meta"]["code"]})
@@ -313,5 +358,15 @@ def run(tier):
 def replay(path):
     with open(path) as f:
         v = json.load(f)
+    if "irgraph" in v.get("case", {}):
+        gj = v["case"]["irgraph"]
+        f, rec, code, ins = IG.run_graph(gj)
+        print(IG.describe(gj))
+        print(code)
+        print(f)
+        if f:
+            print("VIOLATION property=C04 replay=%s" % path)
+            return 1
+        return 0
     print(json.dumps(v["case"], indent=1)[:3000])
     return 1
